@@ -29,7 +29,10 @@ def history(rng, n):
         elif r < 0.9:
             p = rng.choice(PATHS)
             ids = [i for i in range(1, nid + 1) if rng.random() < 0.35]
-            cmds.append(('ocall %s %s' % (p, ','.join(map(str, ids)) or '-'), {'k': 'ocall', 'p': list(p.encode()), 'H': ids}))
+            # some handlers unregister their own path from inside the callback (and then accept or decline as said)
+            un = [i for i in range(1, nid + 1) if rng.random() < 0.12] if rng.random() < 0.35 else []
+            cmds.append(('ocall %s %s %s' % (p, ','.join(map(str, ids)) or '-', ','.join(map(str, un)) or '-'),
+                         {'k': 'ocall', 'p': list(p.encode()), 'H': ids, 'un': un}))
         else:
             p = rng.choice(PATHS[:5])
             cmds.append(('children %s' % p, {'k': 'children', 'p': list(p.encode())}))
